@@ -6,6 +6,7 @@
 From Coq Require Import NArith ZArith List Bool.
 From Mpc Require Import Gen.Consts Circuit.Circuit IO.Marshal IO.MarshalProof IO.MarshalRoundTrip IO.RunC14.
 Import ListNotations.
+From Mpc Require Gen.State Base.StateExpected Base.StateCheck Base.StatePkgs.
 
 (* FULL (MPCLC round trip): for every circuit c with
    - header counts and list lengths below 2^32, names and type texts shorter than 2^32 bytes,
@@ -86,3 +87,16 @@ Print Assumptions C14_read_full_exact.
 Theorem C14_roundtrip_hypotheses_inhabited : wf_marshal ex_circuit /\ wf_bristol ex_circuit.
 Proof. exact (conj ex_wf_marshal ex_wf_bristol). Qed.
 Print Assumptions C14_roundtrip_hypotheses_inhabited.
+
+(* STATE INVENTORY (finite obligation on the model regenerated from the source, checked by
+   computation).  The struct fields and package-level variables of the Go packages this
+   property is anchored in — circuit, types — as emitted from /repo's current
+   source by harness/gen_state.go (Gen/State.v) are exactly those the models above were written
+   against (Base/StateExpected.v).  A new field or variable (a cache, a memo, a pool, a counter,
+   a changed field type) is state the models do not have: this obligation then breaks and the
+   property is no longer shown to hold until the change has been reviewed against the model. *)
+Theorem C14_state_inventory :
+  Mpc.Base.StateCheck.state_unchanged Mpc.Gen.State.state_inventory Mpc.Base.StateExpected.expected_state
+    Mpc.Base.StatePkgs.pkgs_C14 = true.
+Proof. vm_compute. reflexivity. Qed.
+Print Assumptions C14_state_inventory.
